@@ -2,7 +2,7 @@
    script language of harness/SCRIPT.md.  Every operation returns the observation tokens
    that pnc_impl prints for the same line.  No proofs here (the model still runs when a
    proof breaks). *)
-From Pnc Require Export Access Data.
+From Pnc Require Export Access Data Disk Move Fill.
 Local Open Scope Z_scope.
 
 (* ---------- observations ---------- *)
@@ -16,31 +16,6 @@ Inductive tok :=
 | TSkip.                     (* model does not predict this token *)
 
 Definition RC_UNMODELLED : Z := -7777.
-
-(* ---------- disk ---------- *)
-Record disk := mkdisk { dk_exists : bool; dk_size : Z; dk_get : Z -> byte }.
-Definition empty_disk := mkdisk false 0 (fun _ => 0).
-
-Definition dk_write (d : disk) (off : Z) (bs : list byte) : disk :=
-  match bs with
-  | [] => d
-  | _ =>
-    let n := Zlen bs in
-    mkdisk true (Z.max (dk_size d) (off + n))
-           (fun x => if (off <=? x) && (x <? off + n) then znth bs (x - off) 0 else dk_get d x)
-  end.
-
-Definition dk_read (d : disk) (off n : Z) : list byte := map (dk_get d) (zrange off n).
-
-(* write the element stream [bs] (xsz bytes per element) at the element offsets [offs] *)
-Fixpoint dk_scatter (d : disk) (xsz : Z) (offs : list Z) (bs : list byte) : disk :=
-  match offs with
-  | [] => d
-  | o :: r => dk_scatter (dk_write d o (zfirstn xsz bs)) xsz r (zskipn xsz bs)
-  end.
-
-Definition dk_gather (d : disk) (xsz : Z) (offs : list Z) : list byte :=
-  flat_map (fun o => dk_read d o xsz) offs.
 
 (* ---------- requests ---------- *)
 Inductive bufspec :=
@@ -144,13 +119,6 @@ Definition obs := (Z * Z * list tok)%type.
 Definition same_all (w : world) (rc : Z) (ex : list tok) : list obs :=
   map (fun r => (r, rc, ex)) (all_ranks w).
 
-Definition name_eqb := bytes_eqb.
-Definition find_dim (h : hdr) (nm : list byte) : option Z :=
-  find_index (fun d => name_eqb (d_name d) nm) (h_dims h) 0.
-Definition find_var (h : hdr) (nm : list byte) : option Z :=
-  find_index (fun v => name_eqb (v_name v) nm) (h_vars h) 0.
-Definition find_att (l : list att) (nm : list byte) : option Z :=
-  find_index (fun a => name_eqb (a_name a) nm) l 0.
 Definition unlim_dimid (h : hdr) : Z :=
   match find_index (fun d => d_size d =? 0) (h_dims h) 0 with Some i => i | None => -1 end.
 Definition num_rec_vars (h : hdr) : Z :=
@@ -263,114 +231,10 @@ Definition atts_of (h : hdr) (varid : Z) : option (list att) :=
        then Some (v_atts (znth (h_vars h) varid (mkvar [] [] [] 0 0 true)))
        else None.
 
-Definition fillvalue_name : list byte := [95; 70; 105; 108; 108; 86; 97; 108; 117; 101].
-
 (* ---------- header write, numrecs write ---------- *)
 Definition write_header (d : disk) (h : hdr) : disk := dk_write d 0 (encode_header h).
 
 Definition write_numrecs_bytes (d : disk) (fmt n : Z) : disk := dk_write d 4 (put_nn fmt n).
-
-(* ---------- data movement at enddef (move_file_block and friends) ---------- *)
-(* one round: list over ranks of (from_off, to_off, count) *)
-Definition move_round (nprocs chunk from to nbytes_left : Z) : Z * list (Z * Z * Z) :=
-  (* returns (new nbytes_left, per-rank transfers) following the loop body *)
-  if nbytes_left <? nprocs * chunk then
-    let rem := nbytes_left / chunk in
-    (0, map (fun r => let cnt := if r >? rem then 0 else if r =? rem then nbytes_left mod chunk else chunk in
-                      (from + 0 + r * chunk, to + 0 + r * chunk, cnt)) (zrange 0 nprocs))
-  else
-    let nb := nbytes_left - chunk * nprocs in
-    (nb, map (fun r => (from + nb + r * chunk, to + nb + r * chunk, chunk)) (zrange 0 nprocs)).
-
-Fixpoint move_rounds (fuel : nat) (d : disk) (nprocs chunk from to nbytes : Z) : disk :=
-  match fuel with
-  | O => d
-  | S k =>
-      if nbytes <=? 0 then d
-      else
-        let '(nb, xs) := move_round nprocs chunk from to nbytes in
-        (* all reads of the round happen before its writes *)
-        let data := map (fun x => let '(fo, to_, c) := x in (to_, dk_read d fo c)) xs in
-        let d' := fold_left (fun acc p => dk_write acc (fst p) (snd p)) data d in
-        move_rounds k d' nprocs chunk from to nb
-  end.
-
-Definition move_file_block (d : disk) (nprocs unit_ to from nbytes : Z) : disk :=
-  if nbytes <=? 0 then d else
-  let c0 := nbytes / nprocs + (if nbytes mod nprocs =? 0 then 0 else 1) in
-  let chunk := if c0 >? unit_ then unit_ else c0 in
-  move_rounds (Z.to_nat (nbytes / (chunk * nprocs) + 2)) d nprocs chunk from to nbytes.
-
-Definition move_record_vars (d : disk) (nprocs unit_ : Z) (numrecs : Z) (nl ol : layout) : disk :=
-  if l_recsize nl =? l_recsize ol then
-    if l_recsize nl =? 0 then d
-    else move_file_block d nprocs unit_ (l_begin_rec nl) (l_begin_rec ol) (l_recsize nl * numrecs)
-  else
-    fold_left (fun acc recno =>
-                 move_file_block acc nprocs unit_
-                                 (l_begin_rec nl + recno * l_recsize nl)
-                                 (l_begin_rec ol + recno * l_recsize ol) (l_recsize ol))
-              (rev (zrange 0 numrecs)) d.
-
-Definition move_fixed_vars (d : disk) (nprocs unit_ : Z) (oh : hdr) (nl ol : layout) (newlens : list Z) : disk :=
-  fold_left (fun acc i =>
-               let ov := znth (h_vars oh) i (mkvar [] [] [] 0 0 true) in
-               if is_recvar (h_dims oh) ov then acc
-               else
-                 let from := znth (l_begins ol) i 0 in
-                 let to := znth (l_begins nl) i 0 in
-                 if to >? from then move_file_block acc nprocs unit_ to from (znth newlens i 0) else acc)
-            (rev (zrange 0 (Zlen (h_vars oh)))) d.
-
-(* ---------- fill (fillerup_aggregate) ---------- *)
-Definition var_fill_bytes (v : var) : list byte :=
-  match find_att (v_atts v) fillvalue_name with
-  | Some i => let a := znth (v_atts v) i (mkatt [] 0 0 []) in a_data a
-  | None => fill_bytes (v_type v)
-  end.
-
-(* per-rank share (start element, count) of var_len elements *)
-Definition fill_share (nprocs rank var_len : Z) : Z * Z :=
-  let c := var_len / nprocs in
-  let st := c * rank in
-  if rank <? var_len mod nprocs then (st + rank, c + 1) else (st + var_len mod nprocs, c).
-
-(* the segments (byte offset, element count, variable) rank writes *)
-Definition fill_plan (h : hdr) (lay : layout) (start_vid nrecs nprocs rank : Z) : list (Z * Z * var) :=
-  let dims := h_dims h in
-  let newvars := zskipn start_vid (h_vars h) in
-  let fillable := filter (fun v => negb (v_nofill v)) newvars in
-  let fixed := flat_map (fun v =>
-      if is_recvar dims v then []
-      else let vl := var_nelems_per_rec (var_shape dims v) in
-           let '(st, c) := fill_share nprocs rank vl in
-           [(v_begin v + st * xlen_type (v_type v), c, v)]) fillable in
-  let recs := flat_map (fun recno =>
-      flat_map (fun v =>
-        if negb (is_recvar dims v) then []
-        else let vl := var_nelems_per_rec (var_shape dims v) in
-             let '(st, c) := fill_share nprocs rank vl in
-             [(v_begin v + l_recsize lay * recno + st * xlen_type (v_type v), c, v)]) fillable)
-      (zrange 0 nrecs) in
-  fixed ++ recs.
-
-Definition repeat_bytes (bs : list byte) (n : Z) : list byte :=
-  flat_map (fun _ => bs) (zrange 0 n).
-
-Definition do_fill (d : disk) (h : hdr) (lay : layout) (start_vid nrecs nprocs : Z) : disk :=
-  fold_left (fun acc rank =>
-     fold_left (fun acc2 seg => let '(off, c, v) := seg in
-                                dk_write acc2 off (repeat_bytes (var_fill_bytes v) c))
-               (fill_plan h lay start_vid nrecs nprocs rank) acc)
-     (zrange 0 nprocs) d.
-
-(* _FillValue attribute of a fill-mode variable must have the variable's type and length 1 *)
-Definition fill_att_ok (v : var) : bool :=
-  match find_att (v_atts v) fillvalue_name with
-  | Some i => let a := znth (v_atts v) i (mkatt [] 0 0 []) in
-              (a_type a =? v_type v) && (a_nelems a =? 1)
-  | None => true
-  end.
 
 (* ---------- enddef ---------- *)
 Definition sync_ranks_numrecs (f : filest) (n : Z) : filest :=
